@@ -161,6 +161,24 @@ Inductive tx :=
 | TOperatorNode (src : addr) (ok : bool).
     (* minerNodeExecutor: 10 tokens are debited and credited to nobody; kept only if the rest succeeds *)
 
+(* ---- contractExecutor.decodeContractData / preCheckContractFee / IntrinsicGas on the parsed pieces of the tx data:
+        a contract tx as it arrives (JSON ok?, gasLimit field, transferValue field, calldata byte counts) ---- *)
+Inductive gas_field := GDefault | GBad | GNum (n : Z).   (* "" or "0"  |  not a uint64  |  a uint64 *)
+Definition gas_price : Z := 1000000000.               (* defaultGasPrice *)
+Definition default_gas_limit : Z := 30000000.         (* p017defaultGasLimit (Proposal017 active) *)
+Definition gas_magnification : Z := 30.               (* common.GasMagnification (Proposal026 active) *)
+Definition intrinsic_gas (creation : bool) (nz z : Z) : Z :=
+  ((if creation then 53000 else 21000) + nz * 16 + z * 4) * gas_magnification.
+
+Definition contract_tx (src : addr) (json_ok : bool) (gas : gas_field) (value : option Z) (creation : bool) (nz z : Z)
+           (tr : list ev) (evm_ok : bool) (gas_used : Z) (stale : option Z) : tx :=
+  let mk n v := TContract src true (n * gas_price) v (intrinsic_gas creation nz z <=? n) tr evm_ok (gas_used * gas_price) stale in
+  match json_ok, gas, value with
+  | true, GDefault, Some v => mk default_gas_limit v
+  | true, GNum n, Some v => mk n v
+  | _, _, _ => TContract src false 0 0 false [] false 0 stale      (* BeforeExecute refuses after the fee *)
+  end.
+
 Definition ten_tokens : Z := 10000000000000000000.
 
 Definition exec_tx (var : variant) (t : tx) (l : led) : led :=
